@@ -42,7 +42,7 @@ REST_TRUST = [
 
 PROPS = {
     "C01": dict(
-        modules=["Syzgy.Props.C01"], ties=["Storage"],
+        modules=["Syzgy.Props.C01"], ties=["Storage", "Ids"],
         runs={"quick": [["store-C01", "--scenarios", "10", "--ops", "300"]],
               "thorough": [["store-C01", "--scenarios", "40", "--ops", "3000"]]},
         trusted=STORE_TRUST,
